@@ -182,43 +182,43 @@ func c38Run(c *Ctx, p *Prog, run *ssa.Function) {
 	nNotify := 0
 	shapeFns := append([]*ssa.Function{run}, run.AnonFuncs...)
 	for _, sf := range shapeFns {
-	eachInstr(sf, func(i ssa.Instruction) {
-		if !offersSignal(i) {
-			return
-		}
-		nNotify++
-		s, isSel := i.(*ssa.Select)
-		ok := true
-		why := ""
-		if !isSel {
-			ok, why = false, "a bare send on w.signal cannot be interrupted by Close()"
-		} else {
-			if !s.Blocking {
-				ok, why = false, "select has a default case: the notification is skipped when the consumer is busy"
+		eachInstr(sf, func(i ssa.Instruction) {
+			if !offersSignal(i) {
+				return
 			}
-			for _, st := range s.States {
-				if st.Dir == types.SendOnly && isSignal(desc(st.Chan)) {
-					continue
+			nNotify++
+			s, isSel := i.(*ssa.Select)
+			ok := true
+			why := ""
+			if !isSel {
+				ok, why = false, "a bare send on w.signal cannot be interrupted by Close()"
+			} else {
+				if !s.Blocking {
+					ok, why = false, "select has a default case: the notification is skipped when the consumer is busy"
 				}
-				if !(st.Dir == types.RecvOnly && (desc(st.Chan) == "$0.terminate" || desc(st.Chan) == "free:w.terminate")) {
-					ok, why = false, "unexpected alternative "+desc(st.Chan)+" competes with the notification"
+				for _, st := range s.States {
+					if st.Dir == types.SendOnly && isSignal(desc(st.Chan)) {
+						continue
+					}
+					if !(st.Dir == types.RecvOnly && (desc(st.Chan) == "$0.terminate" || desc(st.Chan) == "free:w.terminate")) {
+						ok, why = false, "unexpected alternative "+desc(st.Chan)+" competes with the notification"
+					}
 				}
 			}
-		}
-		c.Check("C38.notify_blocking", fname+": the notification is a blocking select {w.signal <- | <-w.terminate}", ok, p.Pos(posOf(i, run)), why)
-		if sf == run {
-			c.Check("C38.notify_blocking", fname+": the notification is sent from the inner.Events case", inRegion(i.Block()), p.Pos(posOf(i, run)), "")
-		} else {
-			// helper closure: it must be called from the inner.Events case
-			called := false
-			eachInstr(run, func(j ssa.Instruction) {
-				if cc := callCommon(j); cc != nil && calledClosure(cc) == sf && inRegion(j.Block()) {
-					called = true
-				}
-			})
-			c.Check("C38.notify_blocking", fname+": the notifying helper is called from the inner.Events case", called, p.Pos(posOf(i, run)), "")
-		}
-	})
+			c.Check("C38.notify_blocking", fname+": the notification is a blocking select {w.signal <- | <-w.terminate}", ok, p.Pos(posOf(i, run)), why)
+			if sf == run {
+				c.Check("C38.notify_blocking", fname+": the notification is sent from the inner.Events case", inRegion(i.Block()), p.Pos(posOf(i, run)), "")
+			} else {
+				// helper closure: it must be called from the inner.Events case
+				called := false
+				eachInstr(run, func(j ssa.Instruction) {
+					if cc := callCommon(j); cc != nil && calledClosure(cc) == sf && inRegion(j.Block()) {
+						called = true
+					}
+				})
+				c.Check("C38.notify_blocking", fname+": the notifying helper is called from the inner.Events case", called, p.Pos(posOf(i, run)), "")
+			}
+		})
 	}
 	c.Floor("C38.notify_blocking", nNotify, 1)
 	// a pending timer must lead to a notification: the loop's select receives
